@@ -399,6 +399,14 @@ func checkC04(c *ev.Ctx) {
 				jobs = append(jobs, job{s, "edit", ei, bi})
 			}
 		}
+		if !s.Multi {
+			// every single-bit flip inside a CRC32-protected field, with that CRC32 re-sealed
+			for _, rg := range sealRegions(s) {
+				for bit := 8 * rg.from; bit < 8*rg.to; bit++ {
+					jobs = append(jobs, job{s, "sealflip", bit, 0})
+				}
+			}
+		}
 		if s.Check == 0 {
 			continue
 		}
@@ -440,6 +448,15 @@ func checkC04(c *ev.Ctx) {
 		case "flip":
 			mod = append([]byte(nil), s.B...)
 			mod[j.arg/8] ^= 1 << uint(j.arg%8)
+		case "sealflip":
+			mod = append([]byte(nil), s.B...)
+			mod[j.arg/8] ^= 1 << uint(j.arg%8)
+			for _, rg := range sealRegions(s) {
+				if j.arg/8 >= rg.from && j.arg/8 < rg.to {
+					binary.LittleEndian.PutUint32(mod[rg.crcAt:], crc32.ChecksumIEEE(mod[rg.crcFrom:rg.crcTo]))
+					name = "sealflip:" + rg.name
+				}
+			}
 		case "burst":
 			r := prng.New(c.Seed, 44, uint64(i))
 			mod = append([]byte(nil), s.B...)
@@ -490,6 +507,25 @@ func checkC04(c *ev.Ctx) {
 			return
 		}
 		clean := cerr == nil && rerr == nil
+		if j.kind == "sealflip" {
+			// The flipped field is consistent with its CRC32 again, so only a cross-check against
+			// the rest of the stream can object.  If the strict reference still accepts the file
+			// with the same content the flip produced another valid file (e.g. a larger declared
+			// dictionary) and nothing is demanded; otherwise the metadata is inconsistent.
+			// (Integers in a longer than the shortest encoding are not among the inconsistencies the
+			// statement lists - the values stay the same - so the judge tolerates them.)
+			if ro, _, e := ref.DecodeXZLenient(mod, 0); e == nil && bytes.Equal(ro, s.Content) {
+				c.Count("sealflip_yields_valid_file", 1)
+				return
+			}
+			if clean {
+				det["what"] = fmt.Sprintf("%s: bit %d of byte %d flipped and the covering CRC32 re-sealed; the reference rejects the file, the reader reports a clean end after %d bytes (content %d bytes, equal=%v)", name, j.arg%8, j.arg/8, len(out), len(s.Content), bytes.Equal(out, s.Content))
+				c.Violation("edit-accepted:"+name, det)
+			} else {
+				c.Count("sealflips_rejected", 1)
+			}
+			return
+		}
 		if j.kind == "edit" {
 			if clean {
 				det["what"] = fmt.Sprintf("metadata edit %q (block %d), CRC32s re-sealed, is not reported: clean end after %d bytes (content %d bytes, equal=%v)", name, j.bi, len(out), len(s.Content), bytes.Equal(out, s.Content))
@@ -528,9 +564,48 @@ func checkC04(c *ev.Ctx) {
 	})
 }
 
+// sealRegion is a byte range [from,to) of a seed protected by the CRC32 stored at crcAt over
+// [crcFrom,crcTo).
+type sealRegion struct {
+	name                          string
+	from, to, crcAt, crcFrom, crcTo int
+}
+
+// sealRegions lists the CRC32-protected fields of a single-stream seed: stream flags, every block
+// header (without the LZMA2 dictionary-size byte: a smaller declared dictionary is no
+// inconsistency of redundant metadata, and its illegal values have their own edit classes),
+// the index and the footer fields.
+func sealRegions(s *xzSeed) []sealRegion {
+	st := s.S
+	o := st.Off
+	rs := []sealRegion{{"stream-flags", o + 6, o + 8, o + 8, o + 6, o + 8}}
+	for _, b := range st.Blocks {
+		h, e := b.HeaderOff, b.HeaderOff+b.HeaderSize-4
+		// position of the filter properties byte: size byte, flags, optional sizes, id 0x21, props size 1
+		pp := -1
+		for k := h + 2; k+2 < e; k++ {
+			if s.B[k] == 0x21 && s.B[k+1] == 0x01 && int(s.B[k+2]) == int(b.DictCode) {
+				pp = k + 2
+			}
+		}
+		if pp < 0 {
+			rs = append(rs, sealRegion{"block-header", h, e, e, h, e})
+			continue
+		}
+		rs = append(rs, sealRegion{"block-header", h, pp, e, h, e}, sealRegion{"block-header", pp + 1, e, e, h, e})
+	}
+	rs = append(rs, sealRegion{"index", st.IndexOff, st.FooterOff - 4, st.FooterOff - 4, st.IndexOff, st.FooterOff - 4})
+	f := st.FooterOff
+	rs = append(rs, sealRegion{"footer", f + 4, f + 10, f, f + 4, f + 10})
+	return rs
+}
+
 func classOf(name string) string {
 	if len(name) > 5 && name[:5] == "edit:" {
 		return "edit"
+	}
+	if len(name) > 9 && name[:9] == "sealflip:" {
+		return "sealflip"
 	}
 	return name
 }
